@@ -26,7 +26,10 @@ type Case struct {
 }
 
 // byte alphabet: one representative per byte class the lexer switches on
-var byteAlpha = []string{"a", "C", "W", "0", "x", ".", "-", ":", "\"", "{", "}", "(", ")", "/", "*", "#", "\n", " ", ";", "=", "!", "~", "%", "|", "&", "<", ">", "^", "+", ",", "\x00", "\xff", "é"}
+var byteAlpha = []string{"a", "C", "W", "0", "x", ".", "-", ":", "\"", "{", "}", "(", ")", "/", "*", "#", "\n", " ", ";", "=", "!", "~", "%", "|", "&", "<", ">", "^", "+", ",", "\x00", "\xff", "é",
+	// one representative per class Go's unicode package distinguishes beyond ASCII (digit Nd, full-width digit, letter number,
+	// no-break space, line separator, byte order mark, full-width letter) and the underscore
+	"\u0663", "\uff13", "\u2167", "\u00a0", "\u2028", "\ufeff", "\uff21", "_"}
 
 // token alphabet: one or two lexemes per token type
 var tokAlpha = []string{
@@ -39,6 +42,7 @@ var tokAlpha = []string{
 	"=", "+=", "-=", "*=", "/=", "%=", "|=", "&=", "^=", "<<=", ">>=", "rol=", "ror=", "&&=", "||=",
 	"{", "}", "(", ")", "[", "]", ",", "/", ";", ".", "!", ":", "+", "-", "%", "|", "&", "^", "*", "<<", ">>",
 	"# c\n", "// c\n", "/* c */", "\n", "$",
+	"\u0663", "\uff13", "\u00a0", "\ufeff", "\u2028",
 }
 
 type hole struct{ name, pre, post string }
@@ -509,7 +513,7 @@ func init() {
 	engine.Register(engine.Spec[Case]{
 		ID:    "C01",
 		Level: "exploration",
-		Rule: "complete enumeration of (1) all byte strings up to length L over a 33-symbol alphabet with one representative per lexer byte class, (2) all token strings up to length K+1 over a 117-lexeme token alphabet, (3) 69 parser-state skeleton holes x all token strings up to length H (and truncated there), (4) every token-boundary prefix, single-token deletion and single-token substitution of every example VCL file; each input goes through the bare lexer, ParseVCL, ParseSnippetVCL and ParseVCLOrSnippet under a fuel budget; non-trivial = input of at least 2 bytes; distinct = distinct input text",
+		Rule: "complete enumeration of (1) all byte strings up to length L over a 41-symbol alphabet with one representative per lexer byte class, (2) all token strings up to length K+1 over a 122-lexeme token alphabet, (3) 69 parser-state skeleton holes x all token strings up to length H (and truncated there), (4) every token-boundary prefix, single-token deletion and single-token substitution of every example VCL file; each input goes through the bare lexer, ParseVCL, ParseSnippetVCL and ParseVCLOrSnippet under a fuel budget; non-trivial = input of at least 2 bytes; distinct = distinct input text",
 		Gen:  gen,
 		Key:  func(c Case) string { return c.Src },
 		Run:  run,
